@@ -114,6 +114,28 @@ func ruleC18(c *Ctx) {
 	sort.Strings(gl)
 	R.Sample(map[string]interface{}{"rule": "C18.1", "globals_never_written_after_init": gl})
 
+	// ---- C18.5 references to package-level storage do not escape ----
+	R.Rule("C18.5", "no alias of package-level storage is created: outside the package initialisers no pointer, slice or map derived from a package-level variable of the module is stored into an object or a caller's memory, or returned - so objects that are used independently never share a backing array through a package-level value", 1)
+	nEsc := 0
+	for _, fn := range a.Funcs() {
+		if isPkgInit(fn) {
+			continue
+		}
+		if _, lib := c.libraryFunc(fn); !lib {
+			continue
+		}
+		for _, e := range a.EscapesOf(fn) {
+			if !globals[e.Global] {
+				continue // a variable of another module (colour models, io.EOF): not this module's state
+			}
+			nEsc++
+			R.Bad(fmt.Sprintf("%s#alias:%s", c.P.FuncName(fn), strings.ReplaceAll(e.Global, "github.com/reactivego/", "")), c.Pos(e.Ins), "references into package-level storage stay inside the package initialiser", "a reference derived from it leaves through a "+e.Via)
+		}
+	}
+	if nEsc == 0 {
+		R.OK("module#no-alias-of-package-level-storage", "-", fmt.Sprintf("%d functions, %d package-level variables", len(a.Funcs()), len(globals)))
+	}
+
 	// ---- C18.2 inputs are read-only ----
 	R.Rule("C18.2", "inputs are read-only: no function of package decode writes through a byte-slice/buffer parameter; Color.Resolve, the palette/viewBox helpers and the colour predicates write through none of their parameters; no Destination method can receive a slice or pointer (signature check), so the encoded bytes cannot leak", 40)
 	bufT := c.Named("decode", "buffer")
